@@ -12,6 +12,10 @@
                    C08_liftfull_distinct_sources_distinct_subkeys on this input
      SN <n>        C08: number of `<--` / `-->` statements of the input
      SKD <0|1|->   C08: the conclusion of that theorem, subkeys_distinct_b of the erased graph
+     MD <0|1>      C13: no two statements that become IR statements share a meta
+     DS <0|1>      C12: desugared_shape of the skeleton (hypothesis of C12_lift_never_panics)
+     PS <0|1>      C12: parser_shaped of the skeleton (the narrower hypothesis that theorem used to have)
+     TT <tree>     C13 (only with arguments `tt <n>`): Spec.CfgSpec.trace_tree n of the skeleton of the body
    Only structural decoding/encoding here; everything with logic is extracted Gallina. *)
 open Datatypes
 open BinNums
@@ -104,17 +108,33 @@ let s_cfg (c : Ir.cfg) =
     (cat " " (Stdlib.List.map s_var c.Ir.c_params)) (cat " " decls)
     (cat " " (Stdlib.List.map (fun b -> show_sexp (w_block b)) c.Ir.c_blocks))
 
-(* CFGError::ShadowingVariableWarning::into_report: the labels exist when the file ids do *)
-let s_report (r : LiftFull.shadow_report) =
-  let label tag file loc = match file with None -> "" | Some f -> Printf.sprintf " (%s %s %d)" tag (s_loc loc) (int_of_n f) in
-  Printf.sprintf "(rep CS0001 %s%s%s)"
-    (hexs_ir ("Declaration of variable `" ^ ostr r.LiftFull.sh_name ^ "` shadows previous declaration."))
-    (label "p" r.LiftFull.sh_primary_file r.LiftFull.sh_primary)
-    (label "s" r.LiftFull.sh_secondary_file r.LiftFull.sh_secondary)
+(* a report of Model.LiftFullReport (CFGError::into_report mirrored in Gallina: code, message, labels) in the
+   text of the harness' report_line; only printing here *)
+let s_report (r : LiftFullReport.report) =
+  Printf.sprintf "(rep %s %s%s)" (ostr r.LiftFullReport.rp_code) (hexs_ir (ostr r.LiftFullReport.rp_message))
+    (cat "" (Stdlib.List.map (fun (l : LiftFullReport.label) ->
+         Printf.sprintf " (%s %s %d)" (if l.LiftFullReport.lb_primary then "p" else "s") (s_loc l.LiftFullReport.lb_loc)
+           (int_of_n l.LiftFullReport.lb_file)) r.LiftFullReport.rp_labels))
 
-let key (m : Ir.meta) = nat_of_int (int_of_n m.Ir.m_start * 1000003 + int_of_n m.Ir.m_end)
-(* nat_of_int of a big number is slow: the key only has to be SOME function of the meta *)
-let key (m : Ir.meta) = nat_of_int ((int_of_n m.Ir.m_start * 31 + int_of_n m.Ir.m_end) mod 9973)
+(* the key of the skeleton cross-check and of the trace / walk oracle: Model.LiftFullReport.positional_key, the position
+   of the first statement of the body carrying the meta (small numbers; injective on the statement metas of the body:
+   C13_positional_key_injective) *)
+
+(* ---- trace tree of the SOURCE skeleton (Spec.CfgSpec.trace_tree), ids printed as start_end of the meta ---- *)
+let show_status = function
+  | CfgSpec.Running -> "E" | CfgSpec.Returned -> "R" | CfgSpec.Exhausted -> "X" | CfgSpec.Diverged -> "D"
+
+let show_tree (metas : Ir.meta list) t =
+  let name k =
+    match Stdlib.List.nth_opt metas (int_of_nat k) with
+    | Some m -> Printf.sprintf "%d_%d" (int_of_n m.Ir.m_start) (int_of_n m.Ir.m_end)
+    | None -> "?" in
+  let show_key = function
+    | CfgSpec.KLeaf id -> "L" ^ name id
+    | CfgSpec.KCond c -> "C" ^ name c in
+  cat "|" (Stdlib.List.map (fun ((ds, tr), st) ->
+      Printf.sprintf "%s:%s:%s" (cat "" (Stdlib.List.map (fun b -> if b then "1" else "0") ds))
+        (cat " " (Stdlib.List.map show_key tr)) (show_status st)) t)
 
 let decode line =
   let open Lib_astwire in
@@ -127,8 +147,11 @@ let decode line =
 
 let b01 b = if b then "1" else "0"
 
+let tt_bound = ref None
+
 let line l =
   let (kind, params, pfile, ploc, body) = decode (Stdlib.String.trim l) in
+  let key = LiftFullReport.positional_key body in
   let wf = LiftFull.definition_wf params pfile ploc body in
   let res = LiftFull.try_lift_impl kind params pfile ploc body in
   let sd = SigAssignSource.source_metas_distinct_b body in
@@ -140,7 +163,7 @@ let line l =
       let c = r.LiftFull.l_cfg in
       let text =
         Printf.sprintf "(ok X %s C %s R (reports%s))" (s_xcfg c) (s_cfg (LiftFull.erase_cfg c))
-          (cat "" (Stdlib.List.map (fun x -> " " ^ s_report x) r.LiftFull.l_reports)) in
+          (cat "" (Stdlib.List.map (fun x -> " " ^ s_report (LiftFullReport.shadow_to_report x)) r.LiftFull.l_reports)) in
       (* the renamed body, as try_lift_impl computes it *)
       let renamed = (match LiftFull.ensure_unique_variables params pfile ploc body with Ok u -> Some (fst u) | _ -> None) in
       let sk =
@@ -160,10 +183,32 @@ let line l =
     | Err e ->
       ((match e with
         | EOther (Zpos Coq_xH) -> "(err invalid-name)"
-        | EOther (Zpos (Coq_xO Coq_xH)) -> "(err param-collision)"
+        | EOther (Zpos (Coq_xO Coq_xH)) ->
+          (* name, file and location of the error: Model.LiftFullReport.param_collision_report *)
+          (match LiftFullReport.param_collision_report params pfile ploc with
+           | Some rep -> "(err param-collision " ^ s_report rep ^ ")"
+           | None -> "(err param-collision (no-collision-in-the-mirror))")
         | _ -> "(err other)"), "-", "-")
     | Panic s -> (Printf.sprintf "(panic) site %d" (int_of_z s), "-", "-")
     | OutOfFuel -> ("(outoffuel)", "-", "-") in
-  Printf.sprintf "%s\tWF %s\tSK %s\tPV %s\tSD %s\tSN %d\tSKD %s" out (b01 wf) sk pv (b01 sd) sn skd
+  (* third audit: MD = no two statements that become IR statements share a meta (LiftFullReport.stmt_metas_distinct_b);
+     DS = the hypothesis of C12_lift_never_panics on this body, Proofs.LiftTotalFlat.desugared_shape of its skeleton,
+     decided by LiftFull.is_block && LiftFull.ast_init_flat (C12_desugared_shape_decided);
+     PS = the narrower shape Spec.CfgSpec.parser_shaped the theorem used to assume (init_ok of the skeleton) *)
+  let md = LiftFullReport.stmt_metas_distinct_b body in
+  let ds = LiftFull.is_block body && LiftFull.ast_init_flat body in
+  let ps = LiftFull.is_block body && CfgSpec.init_ok (LiftFull.skel key body) in
+  (* TT (only when the driver is started as `model_liftfull tt <n>`): the decision tree of the structured semantics of
+     the SOURCE skeleton under every decision list up to length n (Spec.CfgSpec.trace_tree), for the walk oracle of C13 *)
+  let tt = (match !tt_bound with
+      | Some n when LiftFull.is_block body ->
+        "\tTT " ^ show_tree (LiftFullReport.stmt_ir_metas body) (CfgSpec.trace_tree (nat_of_int n) (LiftFull.skel key body))
+      | _ -> "") in
+  Printf.sprintf "%s\tWF %s\tSK %s\tPV %s\tSD %s\tSN %d\tSKD %s\tMD %s\tDS %s\tPS %s%s" out (b01 wf) sk pv (b01 sd) sn skd
+    (b01 md) (b01 ds) (b01 ps) tt
 
-let () = each_line (fun l -> try line l with Failure m -> "(driver-error " ^ m ^ ")" | Not_found -> "(driver-error not-found)")
+let () =
+  (match Array.to_list Sys.argv with
+   | _ :: "tt" :: n :: _ -> tt_bound := Some (int_of_string n)
+   | _ -> ());
+  each_line (fun l -> try line l with Failure m -> "(driver-error " ^ m ^ ")" | Not_found -> "(driver-error not-found)")
